@@ -48,11 +48,11 @@ RULE_CLI = ('one case = one simulated run ending in CLI invocations (detect / in
             'distinct_nontrivial counts distinct (command, source, bad-file kinds / collection kind, options) tuples plus step tuples')
 
 PROPS = {
-    'C01': _p(['story', 'story', 'mixed', 'timing', 'end'], ['C01.order', 'C01.conserve'], RULE_STEP, 6000, 400000, _STEP),
+    'C01': _p(['story', 'story', 'mixed', 'timing', 'end'] * 4 + ['huge'], ['C01.order', 'C01.conserve'], RULE_STEP, 6000, 400000, _STEP),
     'C02': _p(['item', 'item', 'mixed', 'script'], ['C02.order', 'C02.conserve'], RULE_STEP, 6000, 400000, _STEP),
     'C03': _p(['story', 'item', 'mixed', 'meta'], ['C03.frame'], RULE_STEP, 6000, 400000, _STEP),
     'C04': _p(['mixed', 'story', 'item', 'meta', 'script', 'collection'], ['C04.payload', 'C04.collection'], RULE_STEP, 6000, 400000, _STEP),
-    'C05': _p(['story', 'item', 'mixed', 'kofn'], ['C05.atomic'], RULE_STEP, 6000, 400000, _STEP, faulty=True),
+    'C05': _p(['story', 'item', 'mixed', 'kofn'] * 4 + ['huge'], ['C05.atomic'], RULE_STEP, 6000, 400000, _STEP, faulty=True),
     'C06': _p(['story', 'item', 'mixed', 'kofn', 'collection'], ['C06.count', 'C06.silent', 'C06.spurious', 'C06.rest', 'C06.all-ids', 'C06.collection'], RULE_STEP, 6000, 400000, _STEP),
     'C07': _p(['end', 'end', 'mixed', 'collection'], ['C07.terminal', 'C07.terminal-changed', 'C07.never-completed', 'C07.complete',
                                                       'C07.content', 'C07.record', 'C07.roundtrip', 'C07.flag'], RULE_STEP, 4000, 300000,
@@ -62,7 +62,7 @@ PROPS = {
     'C10': _p(['collection'], ['C10.order', 'C10.perm', 'C10.sort'], RULE_BATCH, 3000, 200000, _STEP),
     'C11': _p(['collection'], ['C11.accept', 'C11.after'], RULE_BATCH, 3000, 200000, _STEP,
               variants=[{'flags': []}, {'flags': ['-O']}]),
-    'C13': _p(['alias'], ['C13.msg-mutated', 'C13.reuse', 'C13.shared', 'C13.shared-edit'], RULE_STEP, 3000, 200000,
+    'C13': _p(['alias'], ['C13.msg-mutated', 'C13.reuse', 'C13.shared', 'C13.shared-edit', 'C13.history'], RULE_STEP, 3000, 200000,
               {'roundtrip': False, 'accessors': False, 'message': True, 'message_after': False}),
     'C14': _p(['mixed', 'meta', 'end', 'story'], ['C14.roundtrip', 'C14.envelope', 'C14.restart-equiv'], RULE_STEP, 3000, 200000,
               {'roundtrip': True, 'accessors': False, 'message': False}, dual_restart=True),
@@ -76,5 +76,5 @@ PROPS = {
     'C19': _p(['cli'], ['C19.detect', 'C19.inspect', 'C19.merge'], RULE_CLI, 2500, 150000, _STEP),
     'C20': _p(['mixed', 'story', 'item'], ['C20.ids', 'C20.content', 'C20.inspect'], RULE_STEP, 4000, 300000,
               {'roundtrip': False, 'accessors': False, 'message': True}),
-    'C12': _p(['mixed', 'story', 'item', 'timing', 'classify', 'kofn'], ['C12.exc', 'C12.progress'], RULE_STEP, 6000, 400000, _STEP),
+    'C12': _p(['mixed', 'story', 'item', 'timing', 'classify', 'kofn'] * 3 + ['huge'], ['C12.exc', 'C12.progress'], RULE_STEP, 6000, 400000, _STEP),
 }
